@@ -536,6 +536,9 @@ func genC20Doc(seed int, id string, size int) []byte {
 		doc.Metadata = &sbom.Metadata{}
 	}
 	doc.Metadata.Id = id
+	if doc.Metadata.Name == "" || doc.Metadata.Name[0] >= 0x80 {
+		doc.Metadata.Name = "name of the document" // (the aligned third document differs from this one in the first byte of the name)
+	}
 	if doc.NodeList == nil {
 		doc.NodeList = &sbom.NodeList{}
 	}
@@ -584,7 +587,17 @@ func TestC20(t *testing.T) {
 						d3 := &sbom.Document{}
 						_ = proto.Unmarshal(sc.NewDoc[:fb[0]], d3) // metadata only: exactly as long as the first field of the new document
 						d3.Metadata.Id = id
-						if b3, err := proto.Marshal(d3); err == nil {
+						// same encoded length, other content: a mixture "third document + what an interrupted store left
+						// behind" must not be byte-identical to the new document (it would be if the third were a prefix of it)
+						if nm := []byte(d3.Metadata.Name); len(nm) > 0 && nm[0] < 0x80 {
+							if nm[0] == 'Z' {
+								nm[0] = 'Y'
+							} else {
+								nm[0] = 'Z'
+							}
+							d3.Metadata.Name = string(nm)
+						}
+						if b3, err := proto.Marshal(d3); err == nil && len(b3) == fb[0] {
 							sc.Third = b3
 						}
 					}
